@@ -10,7 +10,7 @@ EXTENDS Uri, Json
 CONSTANTS MaxLen, NameClasses
 
 Names == UNION {[1..m -> NameClasses] : m \in 1..MaxLen}
-DirsU == {"", "sub", "sub dir", "süb/deep", "v1.2"}
+DirsU == {"", "sub", "sub dir", "süb/deep", "v1.2", "arch.md"}
 Bases == {"plain", "with space", "trailing-slash", "ünï", "symlink", "dotdot"}
 
 VARIABLES name, dir, base, done
